@@ -124,9 +124,16 @@ package rlp
 //@ func decodeByteArray
 //@   requires s != nil && s.kind >= -1 && s.kind <= 2
 //@   ensures[C11] @consumed result == nil ==> s.kind == -1
+// willRead admits a read of n bytes only if it fits the innermost open list and the input limit,
+// and then accounts for it: the list position advances by n and the remaining input shrinks by n
+// (every reader calls it before allocating or consuming anything).
 //@ func Stream.willRead
 //@   requires s != nil
 //@   ensures[C11] @rearm s.kind == -1
+//@   ensures[C11] @listbound result == nil && len(s.stack) > 0 ==> n <= old(s.stack[len(s.stack)-1].size - s.stack[len(s.stack)-1].pos) && s.stack[len(s.stack)-1].pos == old(s.stack[len(s.stack)-1].pos) + n
+//@   ensures[C11] @inputbound result == nil && s.limited ==> n <= old(s.remaining) && s.remaining == old(s.remaining) - n
+//@   ensures[C11] @refused result != nil ==> s.remaining == old(s.remaining)
+//@   nopanic[C11]
 //@ func Stream.readFull
 //@   requires s != nil
 //@   ensures[C11] @rearm s.kind == -1
